@@ -2,7 +2,7 @@
 import ast
 
 from ..loader import AnalysisError, ClassInfo, norm_stmt
-from ..small import FoldError, UnrollError, fold, subst_fold, unroll_for
+from ..small import FoldError, UnrollError, fold, pad_side, subst_fold, unroll_for
 
 GEO = "tools/geometric.py"
 BASE = "covmodel/base.py"
@@ -327,18 +327,21 @@ def bookkeeping(ctx, rule="R12.3"):
             writes = sorted(norm_stmt(subst_fold(x, b, {"ls_tmp": dim})) for b in its for x in loops[0].body if isinstance(x.targets[0], ast.Subscript))
             ok = ok and writes == sorted("out_anis[%d] = ls_tmp[%d] / ls_tmp[0]" % (k, k + 1) for k in range(dim - 1))
     ctx.check(ok, rule, T + "::set_len_anis", "a list of length scales redefines anis[i-1] = len[i]/len[0] for i = 1..dim-1 and len_scale = len[0]", "ratios")
+    lpads = [n for n in ast.walk(sl) if isinstance(n, ast.Call) and ast.unparse(n.func) == "np.pad"]
+    ctx.check(len(lpads) == 1 and pad_side(lpads[0]) == ("behind", "edge", "dim - len(ls_tmp)"), rule, T + "::set_len_anis",
+              "too few length scales are filled up behind with the last one (len_scale[i] stays on axis i)", "len-fill-behind")
     ok = "out_anis = set_anis(dim, anis)" in asg
     ctx.check(ok, rule, T + "::set_len_anis", "a scalar length scale keeps the given ratios (padded by set_anis)", "keep-anis")
     chk = [s for s in ast.walk(sl) if isinstance(s, ast.If) and ast.unparse(s.test) == "not ani > 0.0" and any(isinstance(x, ast.Raise) for x in s.body)]
     ctx.check(len(chk) == 1, rule, T + "::set_len_anis", "ratios must be > 0 (ValueError otherwise)", "positive")
     sa = prog.func(GEO, "set_anis")
     pads = [n for n in ast.walk(sa) if isinstance(n, ast.Call) and ast.unparse(n.func) == "np.pad"]
-    ok = len(pads) == 1 and ast.unparse(pads[0].args[1]) == "(dim - len(out_anis) - 1, 0)" and {k.arg: ast.unparse(k.value) for k in pads[0].keywords}.get("constant_values") == "1.0"
+    ok = len(pads) == 1 and pad_side(pads[0]) == ("front", "constant", "dim - len(out_anis) - 1") and {k.arg: ast.unparse(k.value) for k in pads[0].keywords}.get("constant_values") == "1.0"
     ctx.check(ok, rule, GEO + "::set_anis", "too few ratios are padded IN FRONT with 1 up to dim-1 entries", "pad-front")
     ctx.check(any("[:dim - 1]" in norm_stmt(s) for s in sa.body), rule, GEO + "::set_anis", "at most dim-1 ratios are kept", "truncate")
     sg = prog.func(GEO, "set_angles")
     pads = [n for n in ast.walk(sg) if isinstance(n, ast.Call) and ast.unparse(n.func) == "np.pad"]
-    ok = len(pads) == 1 and ast.unparse(pads[0].args[1]) == "(0, no_of_angles(dim) - len(out_angles))" and {k.arg: ast.unparse(k.value) for k in pads[0].keywords}.get("constant_values") == "0.0"
+    ok = len(pads) == 1 and pad_side(pads[0]) == ("behind", "constant", "no_of_angles(dim) - len(out_angles)") and {k.arg: ast.unparse(k.value) for k in pads[0].keywords}.get("constant_values") == "0.0"
     ctx.check(ok, rule, GEO + "::set_angles", "too few angles are padded BEHIND with 0 up to dim(dim-1)/2 entries", "pad-behind")
 
 
